@@ -601,3 +601,40 @@ Proof.
        assert (Hin : In w (w :: gs)) by (left; reflexivity); rewrite <- Egs in Hin;
        destruct (existsb (fun b => b) (map c_cm cs)); [eapply grids_compress_in; eauto | assumption].
 Qed.
+
+(* ================================================================================================ *)
+(* 6. where exactly the identifier mapping is right: for the pulse that holds the operator FIRST      *)
+Section FirstHolder.
+Variables oper coef : Type.
+Variable oeqb : oper -> oper -> bool.
+Variable ceqb : coef -> coef -> bool.
+Variable czero : coef.
+Hypothesis oeqb_spec : forall a b, reflect (a = b) (oeqb a b).
+
+(* the value the model (= the code) stores in pulse_identifier_mapping[p] for the entry e of pulse p *)
+Definition mapped_id (hs : list (ham oper coef)) (p : nat) (e : entry oper coef) : string :=
+  if id_clash oper coef oeqb hs (e_id e) &&
+     (match first_pulse oper coef oeqb hs (e_op e) with Some q => q =? p | None => false end)
+  then suffix (e_id e) p else e_id e.
+Lemma mapping_of_is_mapped_id hs p h : mapping_of oper coef oeqb hs p h = map (fun e => (e_id e, mapped_id hs p e)) (h_entries h).
+Proof. reflexivity. Qed.
+
+Theorem mapping_right_for_first_holder hs p e :
+  oper_ids_clash oper coef oeqb hs = false -> In (p, e) (flatten oper coef hs) ->
+  first_pulse oper coef oeqb hs (e_op e) = Some p ->
+  exists u, In u (uniq oper coef oeqb hs) /\ e_op (snd u) = e_op e /\ mapped_id hs p e = new_id oper coef oeqb hs u.
+Proof.
+  intros Hc Hin Hf. pose proof Hf as Hf'. unfold first_pulse in Hf.
+  destruct (find (fun u => oeqb (e_op e) (e_op (snd u))) (uniq oper coef oeqb hs)) as [u|] eqn:E; [|discriminate].
+  simpl in Hf. inversion Hf as [Hp]. apply find_some in E. destruct E as [Hu Ho].
+  destruct (oeqb_spec (e_op e) (e_op (snd u))) as [Eo|]; [|discriminate].
+  assert (Ei : e_id (snd u) = e_id e).
+  { destruct (String.eqb_spec (e_id (snd u)) (e_id e)) as [|N]; auto. exfalso.
+    assert (C : oper_ids_clash oper coef oeqb hs = true).
+    { eapply oper_ids_clash_spec; eauto. exists u, (p, e). repeat split; auto.
+      eapply uniq_sub; eauto. }
+    congruence. }
+  exists u. split; [exact Hu|]. split; [symmetry; exact Eo|].
+  unfold mapped_id, new_id. rewrite Hf'. cbv iota. rewrite Hp, Nat.eqb_refl, andb_true_r, Ei. reflexivity.
+Qed.
+End FirstHolder.
